@@ -567,3 +567,15 @@ mod tests {
         assert_eq!(record, record2);
     }
 }
+
+// crate-private length helpers exposed to the verification harnesses (compiled only by `cargo kani`)
+#[cfg(kani)]
+pub(crate) mod verif_access {
+    use super::*;
+    pub(crate) fn len_be_u16<W: Write, F: SerializeFn<Vec<u8>>>(f: F) -> impl SerializeFn<W> {
+        length_be_u16(f)
+    }
+    pub(crate) fn len_be_u24<W: Write, F: SerializeFn<Vec<u8>>>(f: F) -> impl SerializeFn<W> {
+        length_be_u24(f)
+    }
+}
